@@ -377,7 +377,7 @@ theorem doInline_appends (total : Bool) (fns : List Fn) (st : St) (fi : Nat) (ar
     (outs.map (fun o => o.map (qualifyValue st.cur)))
   have hout : (resolveFn (effectiveAttrs total f as) f).outputs = f.outputs := rfl
   rw [hout] at r3
-  unfold doInline
+  unfold doInline doInlineWith
   simp only [hf, h1, Bool.not_true, Bool.and_false, Bool.false_eq_true, if_false, h2, h3,
     resolveArgs_refs args _ h1]
   by_cases hp : pfx = ""
@@ -929,6 +929,7 @@ theorem sim_input (S : OpSem α) (fns : List Fn) (args : List α) (st : St) (r :
 def simItem : Item → Bool
   | .beginSub _ _ => false
   | .endSub _ _ => false
+  | .abortSub => false
   | _ => true
 
 theorem Sim.init (S : OpSem α) (args : List α) : Sim S args St.init ⟨[], 0⟩ := by
@@ -1112,10 +1113,16 @@ theorem inlineRun_but (total : Bool) (st0 : St) (f : Fn) (actuals : List (Option
   simp only []
   exact SameBut.trans (addInlined_but _ _ _) (renameFinals_core _ _ _ _).but
 
+theorem bnd_popScope (st : St) (h : Bnd st) : Bnd (popScope st) := by
+  unfold OV.C18.popScope
+  split
+  · exact Bnd.fail st _ h
+  · exact h.curMeta rfl rfl rfl rfl rfl rfl rfl rfl
+
 theorem Bnd.doInline (total : Bool) (fns : List Fn) (st : St) (fi : Nat) (a : List Arg)
     (o : Option (List String)) (p : String) (as : List (String × AVal)) (h : Bnd st) :
     Bnd (doInline total fns st fi a o p as) := by
-  unfold OV.C18.doInline
+  unfold OV.C18.doInline OV.C18.doInlineWith
   split
   · exact Bnd.fail st _ h
   · rename_i f _
@@ -1123,17 +1130,21 @@ theorem Bnd.doInline (total : Bool) (fns : List Fn) (st : St) (fi : Nat) (a : Li
     · exact Bnd.fail st _ h
     · split
       · exact Bnd.fail st _ h
-      · split
-        · exact Bnd.fail st _ h
-        · simp only []
-          generalize resolveFn (effectiveAttrs total f as) f = f'
-          -- the builder the body is inlined into, with literal operands (if any) promoted
-          have h0 : Bnd (if p = "" then st else pushScope st p) := by
-            split
-            · exact h
-            · exact h.curMeta rfl rfl rfl rfl rfl rfl rfl rfl
-          generalize hst0 : (if p = "" then st else pushScope st p) = st0 at h0 ⊢
-          obtain ⟨w1, w2, _, w4, _, w6⟩ := resolveArgs_spec a st0 h0
+      · simp only []
+        -- the builder the body is inlined into, with literal operands (if any) promoted
+        have h0 : Bnd (if p = "" then st else pushScope st p) := by
+          split
+          · exact h
+          · exact h.curMeta rfl rfl rfl rfl rfl rfl rfl rfl
+        generalize hst0 : (if p = "" then st else pushScope st p) = st0 at h0 ⊢
+        obtain ⟨w1, w2, _, w4, _, w6⟩ := resolveArgs_spec a st0 h0
+        split
+        · -- refused after the prefix was pushed and the operands were adapted
+          apply Bnd.fail
+          split
+          · exact w1
+          · exact bnd_popScope _ w1
+        · generalize resolveFn (effectiveAttrs total f as) f = f'
           have hact : ∀ i, some i ∈ (resolveArgs st0 a).2 → i < (resolveArgs st0 a).1.L := by
             intro i hi
             rcases w6 i hi with x | x
@@ -1210,7 +1221,7 @@ theorem doInline_appends_gen (total : Bool) (fns : List Fn) (st : St) (fi : Nat)
       (if pfx = "" then s else pushScope s pfx).cur.inputs = s.cur.inputs := by
     intro s; split <;> simp [pushScope]
   obtain ⟨z1, z2, z3⟩ := hs0 st
-  unfold doInline
+  unfold doInline doInlineWith
   simp only [hf, h1, Bool.false_eq_true, if_false, h2, h3]
   generalize (if pfx = "" then st else pushScope st pfx) = st0 at z1 z2 z3 ⊢
   obtain ⟨f1, f2⟩ := resolveArgs_frame args st0
@@ -1310,7 +1321,7 @@ theorem doInline_fields (total : Bool) (fns : List Fn) (st : St) (fi : Nat) (arg
   obtain ⟨v1, v2, v3, v4, v5, v6, v7⟩ := hpop
     (inlineRun total st0 (resolveFn (effectiveAttrs total f as) f) (resolveArgs st0 args).2
       (outs.map (fun o => o.map (qualifyValue st.cur)))).1
-  unfold doInline
+  unfold doInline doInlineWith
   simp only [hf, h1, Bool.not_true, Bool.and_false, Bool.false_eq_true, if_false, h2, h3, hs0,
     resolveArgs_refs args _ h1]
   refine ⟨by rw [v3, u3, k1, a3], by rw [v4, u4, k2, a4], by rw [v5, u5, k3, a5], ?_⟩
@@ -1343,27 +1354,84 @@ theorem args_vals_ok (S : OpSem α) (st : St) (r : RSt α) (E Eo : Env α) (cach
       simp only [Option.bind_some, argVal]
       exact hlit _ id hm
 
+/-- promoting literal operands (and nothing else) keeps the simulation: new initializers are fresh ids. -/
+theorem sim_resolveArgs (S : OpSem α) (args : List α) (st : St) (r : RSt α) (a : List Arg)
+    (h : Sim S args st r) : Sim S args (resolveArgs st a).1 r := by
+  obtain ⟨q1, ⟨ext, q2, q3⟩, _, q5⟩ := resolveArgs_sem a st h.cok
+  obtain ⟨w1, w2, _, w4, _, _⟩ := resolveArgs_spec a st h.bnd
+  have hold : ∀ k ∈ st.cur.nodes, NodeOK st.L st.inits k := h.bnd.nodes st.cur (by simp [St.frames])
+  have hE : ∀ i, i < st.L → evalGraph S (resolveArgs st a).1 args i = evalGraph S st args i := by
+    intro i hi
+    unfold evalGraph
+    rw [q5]
+    apply evalNodes_agree S st.L _ _ _ _ (fun k hk j hj => ((hold k hk).2 j hj).1) i hi
+    intro j hj
+    unfold baseEnv
+    rw [q2, q5]
+    exact baseOf_cache_exts S _ _ _ _ j (fun e he => by have := q3 e he; omega)
+  refine ⟨w1, q1, by rw [h.nin, q5], ?_, ?_⟩
+  · intro n hn o ho hmem
+    rw [q5] at hn
+    rw [q1.inits, q2, List.map_append, List.mem_append] at hmem
+    rcases hmem with x | x
+    · exact h.sep n hn o ho (h.cok.inits ▸ x)
+    · obtain ⟨e, he, he2⟩ := List.mem_map.mp x
+      have h3 := q3 e he
+      have h4 := (hold n hn).1 _ ho
+      omega
+  · rw [w2, ← h.vals]
+    apply List.map_congr_left
+    intro o ho
+    cases o with
+    | none => rfl
+    | some i => exact hE i (h.bnd.handles i ho)
+
+theorem sim_pushScope (S : OpSem α) (args : List α) (st : St) (r : RSt α) (p : String)
+    (h : Sim S args st r) : Sim S args (pushScope st p) r :=
+  sim_meta S args st _ r h (h.bnd.curMeta rfl rfl rfl rfl rfl rfl rfl rfl) (Nat.le_refl _) rfl rfl rfl rfl rfl
+
+theorem sim_popScope (S : OpSem α) (args : List α) (st : St) (r : RSt α)
+    (h : Sim S args st r) : Sim S args (popScope st) r := by
+  unfold popScope
+  split
+  · exact sim_fail S args st r _ h
+  · exact sim_meta S args st _ r h (h.bnd.curMeta rfl rfl rfl rfl rfl rfl rfl rfl) (Nat.le_refl _) rfl rfl rfl rfl rfl
+
 theorem sim_inline (S : OpSem α) (fns : List Fn) (args : List α) (st : St) (r : RSt α)
     (fi : Nat) (a : List Arg) (o : Option (List String)) (p : String) (as : List (String × AVal))
     (hssa : ∀ f ∈ fns, ∀ n ∈ f.nodes, n.outs.Nodup) (h : Sim S args st r) :
     Sim S args (doInline true fns st fi a o p as) (replayStep S fns args r (.inline fi a o p as)) := by
   cases hf : fns[fi]? with
   | none =>
-    simp only [doInline, replayStep, hf]
+    simp only [doInline, doInlineWith, replayStep, hf]
     exact sim_fail S args st r _ h
   | some f =>
     cases h1 : (!inlineAdapts && !a.all isRef) with
     | true =>
-      simp only [doInline, replayStep, hf, h1, if_true, Bool.true_or]
+      simp only [doInline, doInlineWith, replayStep, hf, h1, if_true, Bool.true_or]
       exact sim_fail S args st r _ h
     | false =>
       by_cases h2 : a.length > f.formals.length
-      · simp only [doInline, replayStep, hf, h1, h2, Bool.false_eq_true, if_false, if_true,
-          decide_true, Bool.true_or, Bool.or_true, Bool.false_or]
-        exact sim_fail S args st r _ h
       · cases h3 : outsMismatch o f with
         | true =>
-          simp only [doInline, replayStep, hf, h1, h2, h3, Bool.false_eq_true, if_false, if_true,
+          simp only [doInline, doInlineWith, replayStep, hf, h1, h2, h3, Bool.false_eq_true, if_false, if_true,
+            decide_true, Bool.true_or, Bool.or_true, Bool.false_or]
+          exact sim_fail S args st r _ h
+        | false =>
+          simp only [doInline, doInlineWith, replayStep, hf, h1, h2, h3, Bool.false_eq_true, if_false, if_true,
+            decide_true, Bool.true_or, Bool.or_true, Bool.false_or]
+          apply sim_fail
+          have hs0 : Sim S args (if p = "" then st else pushScope st p) r := by
+            split
+            · exact h
+            · exact sim_pushScope S args st r p h
+          have hra := sim_resolveArgs S args _ r a hs0
+          split
+          · exact hra
+          · exact sim_popScope S args _ r hra
+      · cases h3 : outsMismatch o f with
+        | true =>
+          simp only [doInline, doInlineWith, replayStep, hf, h1, h2, h3, Bool.false_eq_true, if_false, if_true,
             decide_false, Bool.or_true, Bool.false_or]
           exact sim_fail S args st r _ h
         | false =>
@@ -1506,6 +1574,7 @@ theorem sim_step (S : OpSem α) (fns : List Fn) (args : List α) (st : St) (r : 
   | inline f a o p as => exact sim_inline S fns args st r f a o p as hssa h
   | beginSub g i => simp [simItem] at hs
   | endSub r d => simp [simItem] at hs
+  | abortSub => simp [simItem] at hs
   | output hd n =>
     refine sim_meta S args st _ r h hb ?_ ?_ ?_ ?_ ?_ ?_ <;>
       (simp only [step, doOutput]; split <;> [skip; (split <;> [split; skip])]) <;>
